@@ -88,6 +88,7 @@ func c17() (*eng.Profile, func() []eng.Monitor) {
 	p := eng.ProfileFull("C17", map[string]int{"query": 30, "get": 8, "anchor": 4, "attest": 5, "defineResolver": 4, "registerResolver": 5,
 		"createClass": 5, "createProject": 6, "createBatch": 8, "sell": 10, "updClassAdmin": 2, "updProjectAdmin": 2, "bulkOrders": 1, "bulkBasket": 1, "bulkAttest": 1, "bulkHolders": 2})
 	p.PrefixIDs = true
+	p.PopulatedPct = 12
 	var cur *mon.C17
 	p.Custom = map[string]func(w *eng.World){"query": func(w *eng.World) { cur.QueryStep(w) }, "get": func(w *eng.World) { cur.SingleStep(w) }}
 	return p, func() []eng.Monitor { cur = &mon.C17{}; return []eng.Monitor{cur} }
